@@ -388,7 +388,9 @@ def _in_quantifier(case):
 REQUIRED_INPUT_CLASSES = (
     ['species_%d' % n for n in range(2, 13)] + ['elements_%d' % n for n in range(1, 5)]
     + ['element_two_letters', 'more_elements_than_species', 'names_plain', 'names_formula', 'names_decorated',
-       'feed_mixed', 'feed_onehot', 'feed_all', 'feed_tiny', 'feed_int',
+       'feed_mixed', 'feed_onehot', 'feed_all', 'feed_tiny', 'feed_int', 'feed_trace',
+       'trace_one_carrier_fed', 'trace_several_carriers_fed', 'trace_element_total_below_1e-8',
+       'trace_ratio_1e-06', 'trace_ratio_1e-08', 'trace_ratio_1e-09', 'trace_ratio_1e-10', 'trace_ratio_1e-12',
        'scale_1e-06', 'scale_0.001', 'scale_1', 'scale_1000', 'scale_1e+06',
        'T_int', 'T_np.float64', 'T_np.int64', 'P_int', 'P_np.float64', 'P_np.int64',
        'feedtype_int', 'feedtype_np.float64', 'feedtype_np.int64',
@@ -416,6 +418,13 @@ def _input_classes(case):
         out.append('names_' + ['plain', 'formula', 'decorated'][case['namestyle']])
         out.append('feed_' + case['feedkind'])
         out.append('scale_%g' % case['scale'])
+        if case.get('trace'):
+            tr = case['trace']
+            out.append('trace_ratio_%g' % tr['ratio'])
+            out.append('trace_one_carrier_fed' if tr['carriers_fed'] == 1 else 'trace_several_carriers_fed')
+            tot = sum(case['feed'][i] * s_['formula'].get(tr['element'], 0) for i, s_ in enumerate(sp))
+            if 0.0 < tot <= 1e-8:
+                out.append('trace_element_total_below_1e-8')
         t = case['types']
         for k, pre in (('T', 'T_'), ('P', 'P_'), ('feed', 'feedtype_')):
             if t[k] != 'float':
